@@ -1,0 +1,37 @@
+//go:build verif
+
+package util
+
+import (
+	rolloutv1beta1 "github.com/openkruise/rollouts/api/v1beta1"
+	apps "k8s.io/api/apps/v1"
+)
+
+// Hooks for the verification harness (suite "finder"): add-only, compiled only with -tags verif.
+
+// VerifFinder returns one of the unexported kind-specific finder functions.
+func (r *ControllerFinder) VerifFinder(which string) ControllerFinderFunc {
+	switch which {
+	case "deployment":
+		return r.getDeployment
+	case "cloneSet":
+		return r.getKruiseCloneSet
+	case "advancedDeployment":
+		return r.getAdvancedDeployment
+	case "stsLike":
+		return r.getStatefulSetLikeWorkload
+	case "daemonSet":
+		return r.getKruiseDaemonSet
+	}
+	return nil
+}
+
+// VerifGetLatestCanaryDeployment exposes getLatestCanaryDeployment.
+func (r *ControllerFinder) VerifGetLatestCanaryDeployment(stable *apps.Deployment) (*apps.Deployment, error) {
+	return r.getLatestCanaryDeployment(stable)
+}
+
+// VerifVerifyGroupKind exposes verifyGroupKind.
+func VerifVerifyGroupKind(ref *rolloutv1beta1.ObjectRef, expectedKind string, expectedGroups []string) (bool, error) {
+	return verifyGroupKind(ref, expectedKind, expectedGroups)
+}
